@@ -8,17 +8,35 @@ import NmfuProps.C01
 namespace Nmfu
 
 /-- Dispatching any symbol on a continuation whose head is a running wait either consumes it
-    (next configuration) or, when the pattern is complete and cannot continue with this symbol,
-    hands the symbol to what follows: the wait itself never raises. -/
-theorem C16_wait_never_raises (c : Src.Ctx) (fuel : Nat) (pend : List AEv) (r0 r : Rx) (rest : Kont)
-    (hnn : r.nullable = false) :
-    ∃ K', Src.disp c (fuel + 1) pend (.w r0 r :: rest) = Src.flushT pend (.leaf (.next K')) := by
+    (next configuration) or — when the pattern is complete here, possibly as the empty match at a
+    restart — hands the symbol to what follows: the wait itself never raises, whatever the symbol
+    (end-of-input included) and whatever handlers enclose it. -/
+theorem C16_wait_never_raises (c : Src.Ctx) (fuel : Nat) (pend : List AEv) (r0 r : Rx) (rest : Kont) :
+    (∃ K', Src.disp c (fuel + 1) pend (.w r0 r :: rest) = Src.flushT pend (.leaf (.next K'))) ∨
+    Src.disp c (fuel + 1) pend (.w r0 r :: rest) = Src.disp c fuel pend rest := by
   simp only [Src.disp]
   split
-  · split <;> exact ⟨_, rfl⟩
-  · simp only [hnn, Bool.false_eq_true, if_false]
+  · left; split <;> exact ⟨_, rfl⟩
+  · split
+    · right; rfl
+    · split
+      · left; split <;> exact ⟨_, rfl⟩
+      · split
+        · right; rfl
+        · left; exact ⟨_, rfl⟩
+
+/-- A pattern that cannot match the empty string is only ever left by consuming: every symbol is
+    consumed by the wait. -/
+theorem C16_wait_consumes (c : Src.Ctx) (fuel : Nat) (pend : List AEv) (r0 r : Rx) (rest : Kont)
+    (hnn : r.nullable = false) (h0 : r0.nullable = false) :
+    ∃ K', Src.disp c (fuel + 1) pend (.w r0 r :: rest) = Src.flushT pend (.leaf (.next K')) := by
+  rcases C16_wait_never_raises c fuel pend r0 r rest with h | h
+  · exact h
+  · simp only [Src.disp, hnn, h0, Bool.false_eq_true, if_false] at h ⊢
     split
     · split <;> exact ⟨_, rfl⟩
-    · exact ⟨_, rfl⟩
+    · split
+      · split <;> exact ⟨_, rfl⟩
+      · exact ⟨_, rfl⟩
 
 end Nmfu
